@@ -776,7 +776,10 @@ pub fn cmd_check(a: CheckArgs) -> i32 {
         ("F-oom (allocation requests that returned null)", J::u(c.failed_allocs + fault("oom_landed_in_vec_or_box_abort"))),
         ("F-oom landed in new_boxed (controlled panic)", J::u(fault("oom_landed_in_new_boxed_panic"))),
         ("F-oom landed in Vec/Box::new (handle_alloc_error abort)", J::u(fault("oom_landed_in_vec_or_box_abort"))),
+        ("F-oom-persistent (runs in which every request from the k-th on failed: exhausted heap)", J::u(fault("oom_fired_persistent"))),
         ("F-precondition (documented precondition violated → controlled panic)", J::u(fault("precondition_panic") + fault("leak_on_ctor_panic"))),
+        ("F-dirty-stack (constructor calls made over a stack region filled with a known non-zero byte)", J::u(fault("constructor_over_dirtied_stack"))),
+        ("F-alias (new_boxed given adjacent / overlapping / repeated source slices)", J::u(fault("new_boxed_slices_adjacent_in_one_buffer") + fault("new_boxed_slices_overlapping") + fault("new_boxed_same_slice_repeated"))),
     ]);
     let probes = J::Obj(agg.probes.0.iter().map(|(k, v)| (k.clone(), J::u(*v))).collect());
     let zero_probes: Vec<J> = expected_probes(prop).into_iter().filter(|p| fault(p) == 0).map(J::s).collect();
@@ -861,9 +864,27 @@ pub fn cmd_check(a: CheckArgs) -> i32 {
 fn expected_probes(prop: Prop) -> Vec<&'static str> {
     let mut v = vec!["oom_landed_in_new_boxed_panic"];
     match prop {
-        Prop::C16 => v.extend(["empty_slice_in_partition", "partition_with_0_slices", "dst_result_at_8_mod_16", "leak_on_ctor_panic"]),
-        Prop::C07 => v.extend(["byvalue_tag_at_minaligned_address", "precondition_panic", "oom_landed_in_vec_or_box_abort"]),
-        Prop::C06 => v.extend(["repeatable_slot_with_3_entries", "realloc_moved_during_build", "built_at_8_mod_16", "precondition_panic", "oom_landed_in_vec_or_box_abort"]),
+        Prop::C16 => v.extend([
+            "empty_slice_in_partition",
+            "partition_with_0_slices",
+            "dst_result_at_8_mod_16",
+            "leak_on_ctor_panic",
+            "new_boxed_slices_adjacent_in_one_buffer",
+            "new_boxed_slices_overlapping",
+            "new_boxed_same_slice_repeated",
+            "oom_fired_persistent",
+        ]),
+        Prop::C07 => v.extend(["byvalue_tag_at_minaligned_address", "precondition_panic", "oom_landed_in_vec_or_box_abort", "constructor_over_dirtied_stack", "oom_fired_persistent"]),
+        Prop::C06 => v.extend([
+            "repeatable_slot_with_3_entries",
+            "realloc_moved_during_build",
+            "built_at_8_mod_16",
+            "precondition_panic",
+            "oom_landed_in_vec_or_box_abort",
+            "oom_fired_persistent",
+            "mbi_history_with_over_255_tags",
+            "builder_from_default",
+        ]),
         Prop::C12 => v.extend(["built_at_8_mod_16", "realloc_moved_during_build", "oom_landed_in_vec_or_box_abort"]),
     }
     v
